@@ -314,6 +314,14 @@ Theorem C13_e2e_in_flight : forall bound frs, E2EAttempts.overlap_ok bound frs =
             /\ NoDup (map E2EAttempts.f_node (E2EAttempts.in_flight t frs)).
 Proof. exact E2EAttempts_proofs.overlap_ok_sound. Qed.
 
+(* ... and conversely: the sweep (hence the `viol` predicate prop_overlap) fails EXACTLY when at some
+   instant more than [bound] frames are in flight or two of them are on one node *)
+Theorem C13_e2e_in_flight_iff : forall bound frs,
+  E2EAttempts.overlap_ok bound frs = true <->
+  forall t, List.length (E2EAttempts.in_flight t frs) <= bound
+            /\ NoDup (map E2EAttempts.f_node (E2EAttempts.in_flight t frs)).
+Proof. exact E2EAttempts_proofs.overlap_ok_iff. Qed.
+
 (* the predicate the driver evaluates on observations for which no certificate is accepted holds of
    every accepted one *)
 Theorem C13_e2e_prop_overlap : forall p idem spec cl0 nodes down cs assign frs ls t0 tret margin o co,
@@ -460,4 +468,5 @@ Print Assumptions C13_e2e_schedule.
 Print Assumptions C13_e2e_completions.
 Print Assumptions C13_e2e_timer.
 Print Assumptions C13_e2e_in_flight.
+Print Assumptions C13_e2e_in_flight_iff.
 Print Assumptions C13_e2e_prop_overlap.
